@@ -2,7 +2,10 @@
 
 package dtlcp
 
-import "time"
+import (
+	"net"
+	"time"
+)
 
 // C19 — per-endpoint reaction lemmas of the datagram record layer under loss and reordering. Each harness puts
 // the REAL readRecordOrCCS / ReadFrom / Read into the state one endpoint is in when a single datagram of the
@@ -219,4 +222,52 @@ func VerifHarness_C03_dtlcp_deferred_ccs() {
 		verifReach("rejected")
 		verifAssert("C03.ccs.dtlcpMalformedIsAnError", wellFormed || err != nil)
 	}
+}
+
+// C18 — the address filter under the cookie: the cookie binds a ClientHello to the connection's peer address, and
+// the only thing that ties an incoming datagram to that address is readDatagram's source check. A datagram from
+// another source — different port, different host, or different IPv6 zone — is ignored and the next datagram from
+// the peer is taken.
+//
+//verif:harness props=C18,C16 paths=2000 reach=filtered
+func VerifHarness_C18_source_address_filter() {
+	peer := &net.UDPAddr{IP: net.IPv4(10, 0, 0, 1), Port: 10000}
+	other := &net.UDPAddr{IP: net.IPv4(10, 0, 0, 1), Port: 10000}
+	switch verifSplitInt("differsIn", 0, 2) {
+	case 0:
+		other.Port = 10001
+	case 1:
+		other.IP = net.IPv4(10, 0, 0, 2)
+	case 2:
+		peer.IP, other.IP = net.ParseIP("fe80::1"), net.ParseIP("fe80::1")
+		peer.Zone, other.Zone = "eth0", "eth1"
+	}
+	foreign := verifNondetBytes("foreignDatagram", 14)
+	genuine := verifNondetBytes("peerDatagram", 15)
+	t := &verifAddrPConn{from: []net.Addr{other, peer}, data: [][]byte{foreign, genuine}}
+	c := &Conn{pconn: t, remoteAddr: peer, config: &Config{Rand: verifRandSrc{}}}
+	err := c.readDatagram()
+	verifReach("filtered")
+	verifAssert("C18.filter.foreignSourceIgnored", err == nil && len(c.rawInputBuf) == 15 && t.pos == 2)
+	verifAssert("C16.filter.foreignSourceIgnored", err == nil && len(c.rawInputBuf) == 15 && t.pos == 2)
+	for i := 0; i < len(c.rawInputBuf) && i < 15; i++ {
+		verifAssert("C18.filter.peerDatagramTaken", c.rawInputBuf[i] == genuine[i])
+	}
+}
+
+type verifAddrPConn struct {
+	verifPConn
+	from []net.Addr
+	data [][]byte
+	pos  int
+}
+
+func (p *verifAddrPConn) ReadFrom(b []byte) (int, net.Addr, error) {
+	if p.pos >= len(p.data) {
+		return 0, verifAddr{}, verifTimeout{}
+	}
+	n := copy(b, p.data[p.pos])
+	a := p.from[p.pos]
+	p.pos++
+	return n, a, nil
 }
